@@ -246,6 +246,165 @@ func nearestGuard(stack []ast.Node, defs map[string]string) string {
 	return ""
 }
 
+// packageState prints the package-level variables of the hand-written packages: (package, name, kind), where kind
+// says what a value of that variable can be made to do: "scalar" (numbers, strings, booleans), "regexp", "error",
+// "func"/"alias" (a function value or another package's identifier), and the kinds that can hold state shared by every
+// call in the process: "map", "slice", "pointer", "sync" (sync.Pool, sync.Map, sync.Mutex, atomic…), "struct", "other".
+func packageState(repo string) {
+	type entry struct {
+		Pkg  string `json:"pkg"`
+		Name string `json:"name"`
+		Kind string `json:"kind"`
+	}
+	out := []entry{}
+	dirs := []string{".", "internal/interpreter", "internal/analysis", "internal/parser", "internal/lsp", "internal/utils", "internal/cmd", "internal/ansi", "internal/numscript"}
+	kindOfType := func(t ast.Expr) string {
+		switch t := t.(type) {
+		case *ast.MapType:
+			return "map"
+		case *ast.ArrayType:
+			return "slice"
+		case *ast.StarExpr:
+			return "pointer"
+		case *ast.FuncType:
+			return "func"
+		case *ast.ChanType:
+			return "sync"
+		case *ast.InterfaceType:
+			return "other"
+		case *ast.StructType:
+			return "struct"
+		case *ast.SelectorExpr:
+			if id, ok := t.X.(*ast.Ident); ok && (id.Name == "sync" || id.Name == "atomic") {
+				return "sync"
+			}
+			if id, ok := t.X.(*ast.Ident); ok && id.Name == "big" {
+				return "struct"
+			}
+			return "other"
+		case *ast.IndexExpr, *ast.IndexListExpr:
+			return "other"
+		case *ast.Ident:
+			switch t.Name {
+			case "string", "bool", "int", "int8", "int16", "int32", "int64", "uint", "uint8", "uint16", "uint32", "uint64", "byte", "rune", "float32", "float64":
+				return "scalar"
+			case "error":
+				return "error"
+			}
+			return "other"
+		}
+		return "other"
+	}
+	var kindOfValue func(v ast.Expr) string
+	kindOfValue = func(v ast.Expr) string {
+		switch v := v.(type) {
+		case *ast.BasicLit:
+			return "scalar"
+		case *ast.FuncLit:
+			return "func"
+		case *ast.Ident:
+			if v.Name == "true" || v.Name == "false" {
+				return "scalar"
+			}
+			return "alias"
+		case *ast.SelectorExpr:
+			return "alias"
+		case *ast.CompositeLit:
+			if v.Type == nil {
+				return "other"
+			}
+			return kindOfType(v.Type)
+		case *ast.UnaryExpr:
+			if v.Op == token.AND {
+				return "pointer"
+			}
+			return kindOfValue(v.X)
+		case *ast.BinaryExpr:
+			return "scalar"
+		case *ast.ParenExpr:
+			return kindOfValue(v.X)
+		case *ast.CallExpr:
+			switch f := v.Fun.(type) {
+			case *ast.SelectorExpr:
+				if id, ok := f.X.(*ast.Ident); ok {
+					switch {
+					case id.Name == "regexp":
+						return "regexp"
+					case id.Name == "errors" || (id.Name == "fmt" && f.Sel.Name == "Errorf"):
+						return "error"
+					case id.Name == "big":
+						return "pointer"
+					case id.Name == "sync" || id.Name == "atomic":
+						return "sync"
+					case id.Name == "strconv" || id.Name == "strings" || id.Name == "math":
+						return "scalar"
+					}
+				}
+				return "other"
+			case *ast.Ident:
+				switch f.Name {
+				case "make":
+					if len(v.Args) > 0 {
+						return kindOfType(v.Args[0])
+					}
+				case "new":
+					return "pointer"
+				case "len", "cap", "min", "max", "string", "int", "int64", "uint64", "byte":
+					return "scalar"
+				}
+				return "other"
+			case *ast.ParenExpr: // a conversion such as (*T)(nil)
+				return "other"
+			}
+			return "other"
+		}
+		return "other"
+	}
+	for _, dir := range dirs {
+		matches, err := filepath.Glob(filepath.Join(repo, dir, "*.go"))
+		must(err)
+		sort.Strings(matches)
+		for _, path := range matches {
+			if strings.HasSuffix(path, "_test.go") || filepath.Base(path) == "bindings.go" {
+				continue // bindings.go: generated LSP protocol types
+			}
+			fset := token.NewFileSet()
+			f, err := parser.ParseFile(fset, path, nil, 0)
+			must(err)
+			for _, d := range f.Decls {
+				gd, ok := d.(*ast.GenDecl)
+				if !ok || gd.Tok != token.VAR {
+					continue
+				}
+				for _, sp := range gd.Specs {
+					vs := sp.(*ast.ValueSpec)
+					for i, n := range vs.Names {
+						if n.Name == "_" {
+							continue // compile-time assertions
+						}
+						kind := "other"
+						if vs.Type != nil {
+							kind = kindOfType(vs.Type)
+						} else if i < len(vs.Values) {
+							kind = kindOfValue(vs.Values[i])
+						}
+						out = append(out, entry{dir, n.Name, kind})
+					}
+				}
+			}
+		}
+	}
+	sort.Slice(out, func(i, j int) bool {
+		if out[i].Pkg != out[j].Pkg {
+			return out[i].Pkg < out[j].Pkg
+		}
+		return out[i].Name < out[j].Name
+	})
+	enc := json.NewEncoder(os.Stdout)
+	enc.SetEscapeHTML(false)
+	must(enc.Encode(out))
+}
+
 // exitSites prints every os.Exit call of internal/cmd: function, nearest enclosing `if` condition, argument
 func exitSites(repo string) {
 	fset := token.NewFileSet()
@@ -320,6 +479,10 @@ func main() {
 	repo := os.Args[1]
 	if len(os.Args) > 2 && os.Args[2] == "--funcs" {
 		funcHashes(repo)
+		return
+	}
+	if len(os.Args) > 2 && os.Args[2] == "--state" {
+		packageState(repo)
 		return
 	}
 	if len(os.Args) > 2 && os.Args[2] == "--exits" {
